@@ -149,13 +149,18 @@ def check_case(case):
             if si == i and ei < len(els):
                 els[ei] = ['']
         if s.id == 'ISA':
-            els[15] = [':']
+            # the ISA separator fields are exempt (statement): whatever delimiters the converter writes with
+            els[15] = ['<sep>']
             if d['icvn'] == '00501':
-                els[10] = ['^']
+                els[10] = ['<sep>']
         a.append((s.id, x12ref.trim(els)))
     b = []
     for s in back:
         els = [list(e) for e in s.elems]
+        if s.id == 'ISA' and len(els) > 15:
+            els[15] = ['<sep>']
+            if d['icvn'] == '00501':
+                els[10] = ['<sep>']
         b.append((s.id, x12ref.trim(els)))
     if a != b:
         j = 0
@@ -206,6 +211,9 @@ def run_entry(entry, n, seed, acc, tier):
         ch = docgen.HypChooser(draw)
         dl = ch.choice([('~', '*', ':', '^'), ('~', '*', ':', '^'), ('|', '!', '\\', '`'), ('\n', '|', '>', '`'), ('\x1c', '\x1d', '\x1e', '\x1f')])
         avoid = '~*:^' + ''.join(dl)
+        if dl[0] != '~' and ch.chance(.5):
+            # under other delimiters ~ * : ^ are plain data characters (the converter back to X12 writes with ~ * : ^)
+            avoid = ''.join(dl)
         kw = dict(p_seg=ch.choice([.3, .5, .8]), p_loop=ch.choice([.2, .4, .6]), max_rep=ch.choice([2, 3]), max_segs=300,
                   shape=ch.choice([(1, 1, 1), (1, 1, 2), (1, 2, 1), (2, 1, 1)]))
         doc = None
@@ -220,6 +228,16 @@ def run_entry(entry, n, seed, acc, tier):
         if doc is None:
             return {'skip': 'genfail'}
         c02.strip_known(doc, acc)
+        if not (set('~*:') & set(avoid)):
+            sites = [(sg, ei) for sg in doc.segs if sg.id not in ('ISA', 'GS', 'ST', 'SE', 'GE', 'IEA')
+                     for ei, c in enumerate(sg.node.children)
+                     if c.kind == 'ele' and c.dtype == 'AN' and not c.codes and not c.ext and c.usage != 'N' and ei > 0 and ei < len(sg.vals)
+                     and len(sg.vals[ei][0]) >= 3 and c.de not in ('1250', '1251') and not c.regex]
+            for _ in range(min(3, len(sites))):
+                sg, ei = sites[ch.integer(0, len(sites) - 1)]
+                v = sg.vals[ei][0]
+                k = len(v) // 2
+                sg.vals[ei] = [v[:k] + ch.choice(['*', ':', '~', '*', ':']) + v[k + 1:]]
         notused = []
         if ch.chance(.4):
             cands = faults.candidates(doc, 'not-used-filled')
